@@ -286,17 +286,16 @@ func runC03(c *Ctx) {
 		c.check(found, rule, fnName(fn)+": deferred closure stores the zero position under err != nil", c.P.Pos(fn.Pos()), "found", "the cached replica position survives a failed sync (a stale position could skip files after a partial upload)")
 		if found {
 			// registered before the first fallible replication step
-			for _, call := range calls(fn) {
-				switch calleeName(call) {
-				case "(*ls.Replica).calcPos", "(*ls.Replica).uploadLTXFile", "(*ls.DB).Pos":
-					c.check(dominates(deferInstr, call), rule, fnName(fn)+": reset is registered before "+calleeName(call), c.pos(call), "defer dominates the call", "an error from this step can leave the cached position in place")
-				}
+			for _, vs := range callSitesV(fn, nameIs("(*ls.Replica).calcPos", "(*ls.Replica).uploadLTXFile", "(*ls.DB).Pos")) {
+				call := vs.Call()
+				c.check(dominates(deferInstr, vs.At()), rule, fnName(fn)+": reset is registered before "+calleeName(call), c.pos(call), "defer dominates the call", "an error from this step can leave the cached position in place")
 			}
 			// a zero position forces recomputation from the remote listing
-			cp := callsTo(fn, nameIs("(*ls.Replica).calcPos"))
+			cp := callSitesV(fn, nameIs("(*ls.Replica).calcPos"))
 			c.floor(rule, len(cp), 1, "calcPos call in syncOnce")
-			for _, call := range cp {
-				c.requireGuard(rule, fn, Site{call, "calcPos"}, truthFact(vCall("(ltx.Pos).IsZero", nil), true, "r.Pos().IsZero()"))
+			for _, vs := range cp {
+				vs.Desc = "calcPos"
+				c.requireGuardV(rule, fn, vs, truthFact(vCall("(ltx.Pos).IsZero", nil), true, "r.Pos().IsZero()"))
 			}
 		}
 		if cp := c.fn(rule, "(*ls.Replica).calcPos"); cp != nil {
